@@ -89,9 +89,12 @@ theorem has_signature_iff (key : Nat) (e : Env) :
 
 /-- C09: a 'signed' object that is not a wrapper counts for `key` iff it is a readable
 signature verifying the digest of the envelope's subject under `key`; what is returned is
-the object itself -/
+the bare signature as a leaf - never the object with whatever assertions someone attached to
+it (the repaired defect: the object used to be returned as it stood, so that assertions
+covered by no signature came back as "metadata") -/
 theorem sigCandidate_plain_exact (key : Nat) (e so m : Env) (hw : so.subject.isWrapped = false) :
-    sigCandidate h V key e so = some m ↔ m = so ∧ ReadableSigBy V key so e.subject.digest :=
+    sigCandidate h V key e so = some m ↔
+      ∃ s, extractSignature so = some s ∧ V.verify key s e.subject.digest = true ∧ m = newLeaf h s :=
   sigCandidate_plain h V key e so m hw
 
 example : Toy.subj.subject.isWrapped = false := rfl
@@ -131,9 +134,9 @@ theorem sigCandidate_isSome_iff (key : Nat) (e so : Env) :
     have hw : so.subject.isWrapped = false := by rw [hs]; rfl
     constructor
     · rintro ⟨m, hm⟩
-      exact Or.inl ⟨rfl, ((sigCandidate_plain h V key e so m hw).1 hm).2⟩
+      exact Or.inl ⟨rfl, (sigCandidate_plain_readable h V key e so m hw hm).1⟩
     · rintro (⟨_, hx⟩ | ⟨inner', d', he, _⟩)
-      · exact ⟨so, (sigCandidate_plain h V key e so so hw).2 ⟨rfl, hx⟩⟩
+      · exact Option.isSome_iff_exists.1 ((sigCandidate_plain_isSome h V key e so hw).2 hx)
       · cases he
 
 /-- a wrapper that carries no 'signed' assertion at all is never accepted (the repaired
@@ -148,15 +151,18 @@ theorem unsigned_wrapper_rejects (key : Nat) (e m : Env) :
 
 /-! ### 8. returned metadata is covered by the key -/
 
-/-- C09: whatever `has_some_signature_from_key_returning_metadata` returns is either one of
-the plain 'signed' objects verifying under the key, or the content `m` of a wrapper that is
-a 'signed' object of `e`, carries a 'signed' object that is a readable signature by the key
-over the wrapper's digest, and whose own subject is the key's signature over the subject
-of `e` -/
+/-- C09: whatever `has_some_signature_from_key_returning_metadata` returns is covered by the
+key.  Either it comes from a plain 'signed' object that is a readable signature by the key
+over the subject of `e`, and then it is the **bare signature** - a leaf, carrying no
+assertion at all, itself that readable signature; or it is the content `m` of a wrapper that
+is a 'signed' object of `e`, carries a 'signed' object that is a readable signature by the
+key over the wrapper's digest (so every assertion of `m` is under that signature), and whose
+own subject is the key's signature over the subject of `e`. -/
 theorem metadata_covered (key : Nat) (e m : Env)
     (hr : hasSignatureFromReturningMetadata h V key e = .ok (some m)) :
     ∃ so ∈ signedObjects h e,
-      (so.subject.isWrapped = false ∧ m = so ∧ ReadableSigBy V key so e.subject.digest) ∨
+      (so.subject.isWrapped = false ∧ ReadableSigBy V key so e.subject.digest ∧
+        m.assertions = [] ∧ ReadableSigBy V key m e.subject.digest) ∨
       (∃ d, so.subject = .wrapped m d ∧
         (∃ o ∈ signedObjects h so, ReadableSigBy V key o d) ∧
         ReadableSigBy V key m e.subject.digest) := by
@@ -169,7 +175,15 @@ theorem metadata_covered (key : Nat) (e m : Env)
     exact Or.inr ⟨d, rfl, hx⟩
   | _ =>
     have hw : so.subject.isWrapped = false := by rw [hs]; rfl
-    exact Or.inl ⟨rfl, (sigCandidate_plain h V key e so m hw).1 hc⟩
+    exact Or.inl ⟨rfl, sigCandidate_plain_readable h V key e so m hw hc⟩
+
+/-- in particular: an unwrapped signature object decorated with assertions of someone's own
+(`Signature [ 'note': "forged" ]`) still counts as the key's signature, but none of those
+assertions is ever returned -/
+theorem unsigned_decoration_never_returned (key : Nat) (e so m : Env)
+    (hw : so.subject.isWrapped = false) (hc : sigCandidate h V key e so = some m) :
+    m.assertions = [] :=
+  (sigCandidate_plain_readable h V key e so m hw hc).2.1
 
 example : ∃ m, hasSignatureFromReturningMetadata Toy.hash Toy.scheme 1 Toy.signed1 = .ok (some m) := by
   have hv : hasSignatureFrom Toy.hash Toy.scheme 1 Toy.signed1 = .ok true := by decide +kernel
@@ -594,7 +608,7 @@ theorem other_subject_rejects (L : SigLaws V S) (k key : Nat) (dg : Digest) (e' 
     | none => rfl
     | some x =>
       exfalso
-      obtain ⟨_, s, hs, hv⟩ := (sigCandidate_plain h V key e' _ x rfl).1 hc
+      obtain ⟨s, hs, hv, _⟩ := (sigCandidate_plain h V key e' _ x rfl).1 hc
       rw [extractSignature_newLeaf_sign h L] at hs
       cases hs
       exact hd (L.sep _ _ _ _ hv).2
